@@ -550,6 +550,14 @@ pub fn l_fuzz_domain(c: &mut LCase) -> bool {
     true
 }
 
+/// cases decoded from byte strings (see `engine::decoded_strategy`)
+pub fn c_bytes_strategy(_tier: Tier) -> BoxedStrategy<CCase> {
+    decoded_strategy(c_fuzz_domain)
+}
+pub fn l_bytes_strategy(_tier: Tier) -> BoxedStrategy<LCase> {
+    decoded_strategy(l_fuzz_domain)
+}
+
 pub fn property() -> Property {
     Property {
         id: "C05",
@@ -561,8 +569,10 @@ pub fn property() -> Property {
         both_profiles: false,
         subs: vec![
             sub_fuzz("csr/history", 200_000, 3_000_000, c_strategy, c_run, c_fuzz_domain),
+            sub("csr/history-from-bytes", 60_000, 1_000_000, c_bytes_strategy, c_run),
             sub("csr/from_sorted_edges", 600_000, 20_000_000, s_strategy, s_run),
             sub_fuzz("list/history", 300_000, 8_000_000, l_strategy, l_run, l_fuzz_domain),
+            sub("list/history-from-bytes", 300_000, 6_000_000, l_bytes_strategy, l_run),
         ],
     }
 }
